@@ -4,6 +4,8 @@ races, mutation of shared expressions and state leaking between calls are probed
 import os, json, time, subprocess, re, glob
 from propspec import PROPS
 
+REPO_PATH = '/repo'
+
 
 def global_writes(repo):
     """Syntactic check: package-level variables of the library and assignments to them outside their declaration."""
@@ -42,10 +44,10 @@ def run(pid, tier, seed, scratch, build, sh, V, BIN, ENV):
     if rc != 0:
         problems.append({'kind': 'harness-does-not-build-against-repo', 'what': out[-800:]})
     else:
-        n, g, rounds = (300, 16, 3) if tier == 'quick' else (3000, 32, 6)
+        n, g, rounds = (300, 16, 3) if tier == 'quick' else (2000, 24, 4)
         env = dict(ENV, GORACE='halt_on_error=0 exitcode=66', OBSERVE_TIMEOUT_MS='60000')
         p = subprocess.run([os.path.join(BIN, 'observe-race'), 'race', '-seed', str(seed), '-n', str(n), '-g', str(g), '-rounds', str(rounds)],
-                           env=env, stdout=subprocess.PIPE, stderr=subprocess.PIPE, timeout=3000)
+                           env=env, stdout=subprocess.PIPE, stderr=subprocess.PIPE, timeout=6000)
         raw = p.stderr.decode('utf-8', 'replace')
         race_reports = raw.count('WARNING: DATA RACE')
         try:
@@ -54,7 +56,22 @@ def run(pid, tier, seed, scratch, build, sh, V, BIN, ENV):
             problems.append({'kind': 'run-broken', 'what': (p.stdout.decode()[-300:] + raw[-500:])})
         if p.returncode not in (0, 66) and res is not None and 'fatal error' in raw:
             problems.append({'kind': 'runtime-crash', 'what': raw[-600:]})
-    names, writes = global_writes('/repo')
+    # package-level state: resolved by the type checker (cmd/gwrites: an assignment, increment, delete or clear whose target is a
+    # package-level variable of the library, outside its declaration and outside init); the regular-expression scan is the fallback
+    # when the library does not type-check
+    names, writes, taken = None, [], []
+    rc2, out2 = sh(['go', 'build', '-o', os.path.join(BIN, 'gwrites'), './cmd/gwrites'], cwd=HARNESS)
+    if rc2 == 0:
+        pw = subprocess.run([os.path.join(BIN, 'gwrites'), REPO_PATH], env=ENV, stdout=subprocess.PIPE, stderr=subprocess.PIPE, timeout=600)
+        try:
+            gw = json.loads(pw.stdout.decode().strip().splitlines()[-1])
+            names = gw['variables']
+            writes = ['%s: %s of package-level variable %s' % (w['pos'], w['kind'], w['var']) for w in gw['writes'] if w['kind'] != 'address taken']
+            taken = ['%s: %s' % (w['pos'], w['var']) for w in gw['writes'] if w['kind'] == 'address taken']
+        except Exception:
+            names = None
+    if names is None:
+        names, writes = global_writes(REPO_PATH)
     violation = None
     if race_reports:
         m = re.search(r'WARNING: DATA RACE.*?(?=\n==================)', raw, re.S)
@@ -71,8 +88,8 @@ def run(pid, tier, seed, scratch, build, sh, V, BIN, ENV):
     ev = {'property_id': pid, 'tier': tier, 'seed': seed, 'level': 'other', 'wall_s': round(wall, 2), 'violations': 1 if violation and violation['kind'] == 'violation' else 0,
           'coverage': {
               'explanation': spec['status'] + ' This run: ' + (('%d goroutines x %d calls over %d queries (shared and private expressions), compared with a sequential run; '
-                             '%d data race report(s); %d result mismatch(es); %d shared expression(s) modified; package-level variables %s, %d write(s) found syntactically')
-                             % (res['goroutines'], res['calls'], res['cases'], race_reports, len(res['mismatches']), res['mutated'], names, len(writes)) if res else 'harness did not run'),
+                             '%d data race report(s); %d result mismatch(es); %d shared expression(s) modified; package-level variables %s, %d write(s) found by the type-based scan (addresses taken: %d)')
+                             % (res['goroutines'], res['calls'], res['cases'], race_reports, len(res['mismatches']), res['mutated'], names, len(writes), len(taken)) if res else 'harness did not run'),
               'evaluations': res['calls'] if res else 0,
               'distinct_nontrivial': res['cases'] if res else 0,
               'rule': spec['rule'],
